@@ -94,11 +94,15 @@ def canon(x):
 WORDS = ["", "", "a", "CDS", "gene", "misc_feature", "pUC19", "E. coli", "lacZ alpha", "1..9", "+", "-", ".", "0",
          "blake3", "v1_DCD_", "join(1..2,4..5)", "x y  z", " lead", "trail ", "UPPER lower"]
 TRICKY = ["<b>&amp;</b>", "say \"hi\"", "back\\slash", "tab\there", "line\nbreak", "cr\rhere", "\x01\x02\x1f", "\x7f",
-          "/slash/", "{\"k\":[1,null]}", "null", "\\u0041", "  ", "�", "﻿bom", "%3B;=,", "sep\u2028para\u2029end"]
+          "/slash/", "{\"k\":[1,null]}", "null", "\\u0041", "  ", "�", "﻿bom", "%3B;=,", "sep\u2028para\u2029end", "nul\x00inside"]
 NONASCII = ["gène", "Ünal", "中文", "\U0001f9ec", "α-helix β", "naïve \U00010348", "퟿",
             "\U0010ffff", "\u0080߿ࠀ￿"]
 
+PLAIN = [False]   # when set, every generated string is printable ASCII (the writers' models' domain)
+
 def rstr(r, tricky=0.12, nonascii=0.12):
+    if PLAIN[0]:
+        return randword(r, "abc XYZ,.;=", r.randint(20, 120)) if r.random() < 0.1 else r.choice(WORDS)
     u = r.random()
     if u < nonascii:
         s = r.choice(NONASCII)
@@ -108,7 +112,7 @@ def rstr(r, tricky=0.12, nonascii=0.12):
     if u < nonascii + tricky:
         return r.choice(TRICKY)
     if u < nonascii + tricky + 0.05:
-        # arbitrary valid scalar values (no NUL, no surrogates)
+        # arbitrary scalar values (NUL included, no surrogates)
         return "".join(chr(c) for c in (rcp(r) for _ in range(r.randint(1, 6))))
     if u < nonascii + tricky + 0.08:
         return randword(r, "abc XYZ,.;=", r.randint(20, 120))
@@ -116,7 +120,7 @@ def rstr(r, tricky=0.12, nonascii=0.12):
 
 def rcp(r):
     while True:
-        c = r.choice([r.randint(1, 0x7f), r.randint(0x80, 0x7ff), r.randint(0x800, 0xffff), r.randint(0x10000, 0x10ffff)])
+        c = r.choice([r.randint(0, 0x7f), r.randint(0x80, 0x7ff), r.randint(0x800, 0xffff), r.randint(0x10000, 0x10ffff)])
         if not (0xd800 <= c <= 0xdfff):
             return c
 
@@ -175,7 +179,7 @@ def rseqtext(r):
         return randword(r, "ACGT", n)
     if u < 0.85:
         return randcase(r, randword(r, IUPAC15, n))
-    if u < 0.92:
+    if u < 0.92 or PLAIN[0]:
         return randword(r, "acgtnU-* 1", n)
     return rstr(r, 0.2, 0.8)
 
@@ -185,6 +189,8 @@ def rfeature(r, seqtext, maxdepth):
         if r.random() < 0.45:
             f[k] = rstr(r)
     f["Type"] = r.choice(["CDS", "gene", "source", "misc_feature", "", rstr(r), "a_very_long_feature_type_name"])
+    if PLAIN[0] and r.random() < 0.5:
+        f["GbkLocationString"] = ""      # let the writer print the location tree
     f["Attributes"] = rmap(r)
     n = len(seqtext.encode("utf-8"))
     f["loc"] = deep_loc(r, n, maxdepth) if r.random() < 0.15 else rloc(r, n, 0, maxdepth)
@@ -291,8 +297,12 @@ def gb_text(r, nonascii):
         return r.choice(["gène product", "中文 note", "β-galactosidase \U0001f9ec"])
     return r.choice(GB_TEXT)
 
-def gb_file(r, nonascii=False):
-    n = r.choice([0, 1, 9, 10, 59, 60, 61, 120, 187])
+def gb_file(r, nonascii=False, wild=False, n=None, nfeat=None):
+    """a GenBank flat file.  Plain (default): the standard layout, which genbank.Parse and Build must accept
+    (such cases are `strict`).  wild: constructs at or beyond the edge of what the parser handles (CRLF, qualifiers
+    without value or quotes, doubled quotes, order()/^/remote locations, BASE COUNT / CONTIG lines)"""
+    if n is None:
+        n = r.choice([0, 1, 9, 10, 59, 60, 61, 120, 187, 600] + ([1200] if wild else []))
     seq = randword(r, "acgt", n)
     name = r.choice(["pUC19", "puc19.gbk", "X", "NC_000913", "sample_1"])
     shape = r.choice(["circular", "linear", ""])
@@ -325,49 +335,80 @@ def gb_file(r, nonascii=False):
         if r.random() < 0.35:
             block(key, gb_text(r, nonascii))
     lines.append("FEATURES             Location/Qualifiers")
-    for _ in range(r.choice([0, 1, 2, 4])):
-        lines.append("     " + r.choice(["source", "CDS", "gene", "misc_feature", "primer_bind", "rep_origin"]).ljust(16) + gb_loc(r, n))
+    for _ in range(r.choice([0, 1, 2, 4, 9]) if nfeat is None else nfeat):
+        loc = gb_loc(r, n)
+        if wild and r.random() < 0.3:
+            a = r.randint(1, max(n, 1))
+            loc = r.choice(["order(%d..%d,%d)" % (a, a + 3, a + 9), "%d^%d" % (a, a + 1), "J00194.1:%d..%d" % (a, a + 5),
+                            "join(%d..%d,J00194.1:1..5)" % (a, a + 2), "%d.%d" % (a, a + 4), "complement(%d)" % a])
+        lines.append("     " + r.choice(["source", "CDS", "gene", "misc_feature", "primer_bind", "rep_origin"]).ljust(16) + loc)
         for _ in range(r.choice([0, 1, 2, 3])):
             q = r.choice(["label", "note", "gene", "product", "translation", "codon_start", "db_xref"])
             v = gb_text(r, nonascii)
             text = '/%s="%s"' % (q, v)
+            if wild:
+                u = r.random()
+                if u < 0.15:
+                    text = "/pseudo"
+                elif u < 0.3:
+                    text = "/codon_start=%d" % r.randint(1, 3)
+                elif u < 0.4:
+                    text = '/note="he said ""%s"" twice"' % v
+                elif u < 0.45:
+                    text = '/%s=""' % q
             first = True
             while text:
                 lines.append(" " * 21 + text[:58])
                 text = text[58:]
-    lines.append("ORIGIN")
+    if wild and r.random() < 0.3:
+        lines.append("BASE COUNT     %d a %d c %d g %d t" % (seq.count("a"), seq.count("c"), seq.count("g"), seq.count("t")))
+    if wild and r.random() < 0.15:
+        lines.append("CONTIG      join(%s.1:1..%d)" % (name, n))
+    lines.append("ORIGIN" + ("      " if wild and r.random() < 0.3 else ""))
     for i in range(0, n, 60):
         chunk = seq[i:i + 60]
         lines.append("%9d %s" % (i + 1, " ".join(chunk[j:j + 10] for j in range(0, len(chunk), 10))))
     lines.append("//")
-    text = "\n".join(lines)
+    nl = "\r\n" if wild and r.random() < 0.2 else "\n"
+    text = nl.join(lines)
     if r.random() < 0.7:
-        text += "\n"
+        text += nl
     return text
 
-def gff_file(r, nonascii=False):
-    n = r.choice([0, 1, 69, 70, 71, 140, 150])
+def gff_file(r, nonascii=False, wild=False, n=None, nfeat=None):
+    """a GFF3 file; wild: comment lines, blank lines, %-escapes, CRLF, no ##FASTA section, an attribute without `=`"""
+    if n is None:
+        n = r.choice([0, 1, 69, 70, 71, 140, 150, 700])
     seq = randword(r, "ACGT", n)
     name = r.choice(["U00096.3", "chr1", "ctg123", "x"])
     lines = ["##gff-version " + r.choice(["3", "3.1.26", "3 "]), "##sequence-region %s %d %d" % (name, r.choice([1, 1, 5]), n)]
-    for _ in range(r.choice([0, 1, 2, 5])):
+    for _ in range(r.choice([0, 1, 2, 5, 12]) if nfeat is None else nfeat):
         a = r.randint(1, max(n, 1)); b = r.randint(1, max(n, 1))
+        if wild and r.random() < 0.2:
+            lines.append(r.choice(["# a comment", "", "##species https://example.org/taxon?id=511145", "#!processor x"]))
         attrs = []
         for k in r.sample(["ID", "Name", "gene", "product", "note", "Parent", "db_xref"], r.randint(1, 4)):
             v = r.choice(["thrL", "b0001", "GO:0009088 - threonine", "leader%3B Amino acid", "1", "a,b,c", ""])
             if nonascii and r.random() < 0.3:
                 v = r.choice(["gène", "中", "\U0001f9ec x"])
+            if wild and r.random() < 0.3:
+                v = r.choice(["GO:0009088 %2D threonine%3B x%3Dy", "a%2Cb", "%09tab", "100%"])
             attrs.append(k + "=" + v)
+        if wild and r.random() < 0.05:
+            attrs.append("flag")
         lines.append("\t".join([r.choice([name, "other"]), r.choice(["feature", "GenBank", "."]),
                                 r.choice(["gene", "CDS", "exon", "region"]), str(min(a, b)), str(max(a, b)),
                                 r.choice([".", "0.5", "1e-10"]), r.choice(["+", "-", ".", "?"]), r.choice([".", "0", "1", "2"]),
                                 ";".join(attrs)]))
-    lines.append("###")
-    lines.append("##FASTA")
-    lines.append(">" + name + r.choice(["", " description text"]))
-    for i in range(0, n, 70):
-        lines.append(seq[i:i + 70])
-    return "\n".join(lines) + "\n"
+    if not (wild and r.random() < 0.2):
+        lines.append("###")
+        lines.append("##FASTA")
+        lines.append(">" + name + r.choice(["", " description text"]))
+        w = r.choice([60, 70, 80]) if wild else 70
+        for i in range(0, n, w):
+            lines.append(seq[i:i + w])
+    nl = "\r\n" if wild and r.random() < 0.2 else "\n"
+    return nl.join(lines) + nl
 
 # ---------------------------------------------------------------- cases
 
@@ -382,6 +423,19 @@ def cases(seed, tier):
     for i in range(n_rt):
         maxdepth = 4 if quick else r.choice([2, 4, 4, 6])
         yield ["rt", canon(rsequence(r, maxdepth))]
+    # printable-ASCII values: here the writers' models (C03 / C14) applied to the model's views must print
+    # what the real genbank.Build / gff.Build print (the tie behind convert_same_gbk / convert_same_gff)
+    PLAIN[0] = True
+    try:
+        for i in range(n_rt // 4):
+            yield ["rt", canon(rsequence(r, 4))]
+    finally:
+        PLAIN[0] = False
+    # map keys whose UTF-8 (= code point) order differs from their UTF-16 order, in one map
+    yield ["rt", canon({"Meta": {"Other": {"\ue000": "a", "\uffff": "b", "\U00010000": "c", "\U0010ffff": "d", "~": "e", "": "f"}},
+                        "Features": [{"Attributes": {"\uffff": "1", "\U00010000": "2", "\ue000": "3"},
+                                      "loc": {"start": 0, "end": 0, "c": False, "j": False, "p5": False, "p3": False, "subs": None},
+                                      "parent": ""}]})]
     # one string field at a time through every special text (escaping / UTF-8 layer)
     for s in TRICKY + NONASCII + (["".join(chr(c) for c in range(1, 128))] if True else []):
         yield ["rt", canon({"Description": s, "Sequence": "ACGT", "Meta": {"Definition": s, "Other": {s: s}},
@@ -390,7 +444,7 @@ def cases(seed, tier):
                                           "parent": "ACGT"}]})]
     if not quick:
         # every BMP code point and a sample of the higher planes, 256 per string
-        cps = [c for c in range(1, 0x10000) if not (0xd800 <= c <= 0xdfff)] + [r.randint(0x10000, 0x10ffff) for _ in range(4096)]
+        cps = [c for c in range(0, 0x10000) if not (0xd800 <= c <= 0xdfff)] + [r.randint(0x10000, 0x10ffff) for _ in range(4096)]
         for i in range(0, len(cps), 256):
             yield ["rt", canon({"Description": "".join(chr(c) for c in cps[i:i + 256])})]
         # large values
@@ -403,48 +457,101 @@ def cases(seed, tier):
     for i in range(300 if quick else 6000):
         yield ["dec", canon(rsequence(r, 3)), str(r.randint(0, 10 ** 6))]
     n_conv = 500 if quick else 15000
-    for i in range(n_conv):
-        yield ["conv", "gbk", esc_text(gb_file(r, nonascii=(i % 10 == 9)))]
-    for i in range(n_conv):
-        yield ["conv", "gff", esc_text(gff_file(r, nonascii=(i % 10 == 9)))]
+    for fmt, mk in (("gbk", gb_file), ("gff", gff_file)):
+        for i in range(n_conv):
+            if i % 10 == 9:      # valid non-ASCII text in values
+                yield ["conv", fmt, esc_text(mk(r, nonascii=True))]
+            elif i % 3 == 2:     # edge-of-format constructs: the parser may reject them (then the case is a named skip)
+                yield ["conv", fmt, esc_text(mk(r, wild=True))]
+            else:                # plain well-formed file: must be converted
+                yield ["conv", fmt, esc_text(mk(r)), "strict"]
+    # records above bufio.Scanner's 64 KiB token limit (the JSON form holds the whole sequence in one line),
+    # through every path: Marshal/Parse, Write/Read of a file, MarshalIndent/Unmarshal
+    big = [70000] if quick else [70000, 100000, 100000, 131073]
+    for n in big:
+        seq = randword(r, "ACGT", n)
+        x = rsequence(r, 3)
+        x["Sequence"] = seq
+        x["Features"] = [rfeature(r, seq, 3) for _ in range(3 if quick else 40)]
+        yield ["rt", canon(x)]
+        yield ["conv", "gbk", esc_text(gb_file(r, n=n, nfeat=4)), "strict"]
+        yield ["conv", "gff", esc_text(gff_file(r, n=n, nfeat=4)), "strict"]
+    if not quick:
+        # a value with many features / references / map entries (slice growth well beyond 8)
+        seq = randword(r, "ACGT", 5000)
+        x = rsequence(r, 2)
+        x["Sequence"] = seq
+        x["Features"] = [rfeature(r, seq, 2) for _ in range(1500)]
+        x["Meta"]["References"] = [{k: rstr(r) for k in REF_F} for _ in range(300)]
+        x["Meta"]["Other"] = {"K%04d" % i: rstr(r) for i in range(500)}
+        yield ["rt", canon(x)]
+        yield ["conv", "gbk", esc_text(gb_file(r, n=3000, nfeat=400)), "strict"]
+        yield ["conv", "gff", esc_text(gff_file(r, n=3000, nfeat=400)), "strict"]
 
 RULE = ("rt: the zero value; every combination of nil / empty / non-empty at the five kinds of collection (Features, References, "
         "Other, Attributes, SubLocations); random annotated sequences (0-5 features, location trees to depth 4 (thorough: 6) with "
         "complement/join/partial flags and nil or empty leaves, evaluable and out-of-range coordinates incl. int64 extremes, "
         "linked / nil / foreign parent pointers, nil-empty-populated maps and reference lists, strings drawn from plain words, "
-        "JSON-special text (quotes, backslash, <>&, control characters, U+2028/9, U+FFFD) and non-ASCII of 2, 3 and 4 UTF-8 bytes); "
-        "thorough: every BMP scalar value. conv: GenBank and GFF files from a small independent writer (0-4 features, nested "
-        "join/complement/partial locations, wrapped qualifiers, references, extra keyword blocks; every tenth file with non-ASCII "
-        "values). dec cases are outside the quantifier (correspondence only). non-trivial = the value has a feature or a non-empty "
-        "string; distinct by case text")
+        "JSON-special text (quotes, backslash, <>&, control characters incl. NUL, U+2028/9, U+FFFD) and non-ASCII of 2, 3 and 4 "
+        "UTF-8 bytes; a quarter as many printable-ASCII values on which the C03/C14 writer models are compared with the real "
+        "writers); map keys in UTF-8 vs UTF-16 order; one value with a 70 000-letter sequence (thorough: 100 000 and 131 073 "
+        "letters, 1500 features, 300 references, 500 map entries, every BMP scalar value). conv: GenBank and GFF files from a "
+        "small independent writer: plain well-formed files (`strict`: must be converted; sizes to 600 bp, up to 9 / 12 features; "
+        "one of 70 000 bp, thorough 131 073 bp and 400 features), every tenth with valid non-ASCII values, a third with "
+        "edge-of-format constructs (CRLF, valueless / unquoted / doubled-quote qualifiers, order()/^/remote locations, BASE COUNT, "
+        "CONTIG, comments, %-escapes, no ##FASTA) that the parser may reject (named skip). dec cases are outside the quantifier "
+        "(correspondence only). non-trivial = the value has a feature or a non-empty string; distinct by case text")
 EXHAUSTIVE = {"quick": False, "thorough": False}
 TRUSTED_BASE = ["encoding/json's text layer (string escaping, UTF-8, number syntax, indentation): corresponded through a Lean JSON "
                 "reader/printer (Base/JsonRead.lean, Base/JVal.lean), not modelled",
                 "harness/cmd/extract-io/gen_c15.go: the JSON member name of each field is observed from json.Marshal/Unmarshal of "
                 "the compiled types, kinds from reflect",
-                "canonical value syntax (ops_c15.go, reflect-driven) used to move poly.Sequence values between Go and Lean"]
-ASSUMPTIONS = ["every Go string in the value is valid UTF-8 (encoding/json replaces invalid bytes by U+FFFD, so other values do not "
-               "survive; the generators emit valid scalar values only, NUL excluded because of the line protocol)",
+                "canonical value syntax (ops_c15.go, reflect-driven) used to move poly.Sequence values between Go and Lean",
+                "Model/GenbankBuild.lean (C03) and Model/Gff.lean (C14) as models of genbank.Build / gff.Build, and "
+                "Model/PolyJsonViews.lean as the list of fields those writers read: tied by C03/C14's own correspondence and, here, by "
+                "comparing model-writer(view x) with the real writer's text on every printable-ASCII rt case"]
+ASSUMPTIONS = ["NAMED EXCLUSION invalid-utf8: 'non-ASCII text' in the quantifier is read as valid Unicode text. A Go string that is not "
+               "valid UTF-8 (e.g. a Latin-1 byte in a GenBank/GFF file, which the parsers pass through byte for byte) is outside "
+               "it: encoding/json replaces each offending byte by U+FFFD by design, so such a value does not survive and "
+               "Build-after-JSON differs from Build-before. The model's strings are code-point lists and cannot hold such a value; "
+               "the driver classes such parser outputs `skip:invalid-utf8` (reached on purpose by gen/corpus/C15/invalid-utf8.case) "
+               "and does not judge them",
+               "GetSequence is modelled on ASCII parent text (one byte per code point; sequences are nucleotide / protein letters): "
+               "`relinked` / `relinked_reports` carry that hypothesis, `relinked_any` covers any text for any report function; on "
+               "non-ASCII parents the check compares the real GetSequence before and after only",
                "maps are represented key-sorted with distinct keys in the model (a Go map has no order)",
-               "genbank.Build / gff.Build do not read ParentSequence and do not distinguish nil from empty collections: checked by "
-               "byte comparison at implementation level on every run, not proved (their Lean models belong to C03/C14)",
+               "the writers' models (C03/C14) are over printable ASCII without integer overflow in Start+1; outside that the conversion "
+               "clause rests on the general theorem convert_same plus byte comparison of the real writers' outputs on every case",
                "json.Unmarshal's case-insensitive member matching and duplicate-member behaviour are not modelled (no document "
                "written by json.Marshal for these types needs them: tags_nodup)"]
 PARTIAL = []
 TECHNIQUE = ("Lean 4 proof over a model of json.Marshal / json.Unmarshal / polyjson.Parse / AddFeature / GetSequence whose struct "
              "table (fields, JSON member names, kinds) is regenerated from the compiled types; decide on the table, structural "
-             "induction over values and location trees; differential correspondence incl. the real JSON text")
+             "induction over values and location trees; conversion clause instantiated for the C03 / C14 writer models through "
+             "field views; differential correspondence incl. the real JSON text")
 LEVEL_TEXT = ("Kernel-checked for all values (any strings, integers, list lengths, nesting depth): unmarshal_marshal (Unmarshal∘Marshal "
               "is the identity up to nil parent pointers, nil-ness of every collection included), parse_marshal (exact result of "
-              "polyjson.Parse∘Marshal), roundtrip / roundtrip_exact / roundtrip_spec, relinked_parent / relinked_reports / relinked, "
-              "getSeq_nil_empty, convert_same; tags_nodup, fields_expected, only_parent_dropped, plain_fields are decided on the "
-              "table re-extracted on every run, and the round-trip lemmas are re-evaluated against it, so a changed tag / dropped "
-              "field / colliding name breaks a proof obligation. The model is tied to the code by comparing, per case, the real "
-              "json.Marshal and MarshalIndent texts (parsed by a Lean JSON reader) with toJ, the real polyjson.Parse of the real "
-              "and of the model-printed JSON with polyjsonParse, Write/Read through a file, GetSequence before and after, and "
-              "genbank.Build / gff.Build before and after; the conversion clause is additionally judged by byte equality on "
-              "generated GenBank and GFF files.")
-LEVEL_NOTE = ("Trusted: Lean kernel; extractor and harness; encoding/json's text layer (corresponded only). The conversion clause is "
-              "proved for every writer that respects value equality; that the two real writers do is established by test, not proof.")
+              "polyjson.Parse∘Marshal), roundtrip / roundtrip_exact / roundtrip_spec / unmarshal_equiv, relinked_parent, relinked_any "
+              "(any report function of parent text and location, any text), relinked_reports / relinked (the GetSequence model, ASCII "
+              "parent text), getSeq_nil_empty, convert_same (any writer respecting value equality) and its instances convert_same_gbk, "
+              "convert_same_gff, convert_same_gbk_pipe, convert_same_gff_pipe for the models of genbank.Build (C03, every map iteration "
+              "order) and gff.Build (C14) applied to the writers' views of the value; tags_nodup, fields_expected, only_parent_dropped, "
+              "plain_fields are decided on the table re-extracted on every run, and the round-trip lemmas are re-evaluated against it, "
+              "so a changed tag / dropped field / colliding name breaks a proof obligation. The model is tied to the code by comparing, "
+              "per case, the real json.Marshal and MarshalIndent texts (parsed by a Lean JSON reader) with toJ, the real polyjson.Parse "
+              "of the real and of the model-printed JSON with polyjsonParse, Write/Read through a file, GetSequence before and after, "
+              "genbank.Build / gff.Build before and after and against the writer models on the views; the conversion clause is "
+              "additionally judged by byte equality on generated GenBank and GFF files through all three paths of `poly convert` "
+              "(Marshal/Parse, Write/Read, MarshalIndent/Unmarshal), every step guarded separately: a step that fails after the direct "
+              "build succeeded is a FAIL, as is any panic / error / crash / race / timeout reply.")
+LEVEL_NOTE = ("Trusted: Lean kernel; extractor and harness; encoding/json's text layer (corresponded only); the C03/C14 writer models and "
+              "the field views (corresponded). ACCEPTED FALSE ALARM: adding `omitempty` to a field keeps the property true (a missing "
+              "member decodes to the zero value; nil and empty collections are equal values) and the model follows it (encStruct "
+              "omits empty values, so correspondence and judge stay green), but plain_fields and the table-evaluated round-trip lemmas "
+              "no longer check: the run ends with `VIOLATION ... no-failing-input-found` naming those obligations. Exact preservation "
+              "of nil-vs-empty (unmarshal_marshal, and the canon comparison of the parsed value) is deliberately stronger than 'equal "
+              "value'; the judge itself identifies nil and empty. Plain generated files are `strict`: a parser or direct writer that "
+              "rejects one fails the case instead of silently shrinking the judged set; only edge-of-format files may be skipped "
+              "(classes skip:parser-*, skip:direct-build-*), and invalid UTF-8 is the named exclusion skip:invalid-utf8.")
 HARNESS_BIN = "run-io"
 EXTRACT_BINS = ["extract-io"]
